@@ -80,7 +80,7 @@ type FieldSpec struct {
 
 // ReqSpec says which sources carry a value for which field.
 type ReqSpec struct {
-	Body   string                       `json:"body"`   // "none", "form", "multipart", "json"
+	Body   string                         `json:"body"`   // "none", "form", "multipart", "json"
 	Values map[string]map[string][]string `json:"values"` // field -> source -> texts
 }
 
@@ -191,7 +191,8 @@ func genFields(t *rapid.T) []FieldSpec {
 	var fs []FieldSpec
 	for i := 0; i < n; i++ {
 		k := rapid.SampledFrom(scalarKinds).Draw(t, "kind")
-		f := FieldSpec{Name: fmt.Sprintf("F%d", i), Kind: k.String(), kind: k, Shape: "scalar", Tags: map[string]string{}}
+		// field names differ between types at the same position, tag literals may coincide (see buildType)
+		f := FieldSpec{Name: rapid.SampledFrom([]string{"F", "G", "Limit", "Offset", "Alpha"}).Draw(t, "namePrefix") + fmt.Sprint(i), Kind: k.String(), kind: k, Shape: "scalar", Tags: map[string]string{}}
 		switch rapid.IntRange(0, 9).Draw(t, "shape") {
 		case 0, 1:
 			f.Shape = "ptr"
@@ -209,6 +210,9 @@ func genFields(t *rapid.T) []FieldSpec {
 				}
 				if s == "header" {
 					key = fmt.Sprintf("X-H-F%d", i)
+				}
+				if s != "header" && s != "cookie" && rapid.IntRange(0, 7).Draw(t, "emptyTagName") == 0 {
+					key = "" // `query:""` / `query:",required"`: the key falls back to the field name
 				}
 				f.Tags[s] = key
 			}
@@ -256,11 +260,18 @@ func buildType(fs []FieldSpec) reflect.Type {
 		if f.Default != "" {
 			tag = append(tag, fmt.Sprintf("default:%q", f.Default))
 		}
-		// a unique marker tag makes every generated type a new type identity (cold decoder cache)
-		typeCounter++
-		tag = append(tag, fmt.Sprintf("vmark:\"%d\"", typeCounter))
+		// every generated type must be a new type identity (cold decoder cache): on even counters a
+		// unique marker tag on every field does it, on odd ones a trailing marker field, so that the tag
+		// literals of the real fields can coincide across fields and types (`default:"7"` twice)
+		if typeCounter%2 == 0 {
+			tag = append(tag, fmt.Sprintf("vmark:\"%d-%s\"", typeCounter, f.Name))
+		}
 		sf = append(sf, reflect.StructField{Name: f.Name, Type: ty, Tag: reflect.StructTag(strings.Join(tag, " "))})
 	}
+	if typeCounter%2 == 1 {
+		sf = append(sf, reflect.StructField{Name: fmt.Sprintf("Zmark%d", typeCounter), Type: reflect.TypeOf(false), Tag: `json:"-"`})
+	}
+	typeCounter++
 	return reflect.StructOf(sf)
 }
 
@@ -269,6 +280,9 @@ func keyFor(f *FieldSpec, src string) (string, bool) {
 		return f.Name, true // untagged: the field name, for every source
 	}
 	k, ok := f.Tags[src]
+	if ok && k == "" {
+		return f.Name, true // empty tag name: the field name
+	}
 	return k, ok
 }
 
